@@ -45,6 +45,37 @@ class DictV:
     __repr__ = vkey
 
 
+class SymList:
+    """list of symbolic length (DESIGN 2.6): length is a Rat (linear in program integers); lo/hi are set when the
+    list is known to be the contiguous integer run lo..hi; segs = [(element key, count)] when the list is known to
+    be a concatenation of constant runs"""
+    __slots__ = ('length', 'lo', 'hi', 'segs')
+
+    def __init__(self, length, lo=None, hi=None, segs=None):
+        self.length, self.lo, self.hi, self.segs = length, lo, hi, segs
+
+    def vkey(self):
+        r = f' run {self.lo.key()}..{self.hi.key()}' if self.lo is not None else ''
+        return f'<list len {self.length.key()}{r}>'
+
+    __repr__ = vkey
+
+    def concat(self, o):
+        lo = hi = None
+        if self.lo is not None and o.lo is not None and (self.hi + C(1)).eq(o.lo):
+            lo, hi = self.lo, o.hi
+        segs = (self.segs + o.segs) if self.segs is not None and o.segs is not None else None
+        return SymList(self.length + o.length, lo, hi, segs)
+
+
+def as_symlist(v):
+    if isinstance(v, SymList):
+        return v
+    if isinstance(v, list):
+        return SymList(C(len(v)), segs=[(vkey(x), C(1)) for x in v])
+    return None
+
+
 class CallRec:
     def __init__(self, name, callee, args, kwargs, pc, node, base=None):
         self.name, self.callee, self.args, self.kwargs, self.pc, self.node, self.base = \
@@ -100,11 +131,18 @@ class Evaluator:
         self.substores = []                # (path, keytext, value, pc)
         self.raises = []                   # (pc, node)
         self.unknown = []                  # constructs evaluated as opaque (for diagnostics)
+        self.loop_bodies = {}              # loop id -> symbolic one-iteration summary
+        self.invariants = []               # loop invariants found by the length domain
+        self.cond_info = {}                # cond key -> (op, lhs value, rhs value) for comparisons
 
     # ================================================================== entry points
-    def run_function(self, bind=None):
-        """evaluate self.func with parameters bound to symbols (or to the values in bind)"""
-        st = State()
+    def run_function_with_store(self, bind, store):
+        return self.run_function(bind, store)
+
+    def run_function(self, bind=None, store=None):
+        """evaluate self.func with parameters bound to symbols (or to the values in bind); store gives the
+        entry-state assumption for selected locations (default: each location is its own entry atom)"""
+        st = State(store=dict(store or {}))
         f = self.func
         bind = bind or {}
         for p in f.params + f.kwonly:
@@ -287,12 +325,25 @@ class Evaluator:
         # calls made in the loop body are recorded (with an opaque path condition) for call-based rules
         sub = st.copy()
         sub.pc = st.pc + [(f'loop#{self.loop_id}', True)]
+        pre_vals = {}
         for nm in written_names:
-            sub.env[nm] = Rat.of(mk_atom('fn', f'loopvar#{self.loop_id}', (nm,)))
+            pre_vals[nm] = st.env.get(nm)
+            if isinstance(st.env.get(nm), (SymList, list)):
+                ll = Rat.of(mk_atom('fn', f'looplen#{self.loop_id}', (nm,)))
+                sub.env[nm] = SymList(ll, segs=[('<prefix>', ll)])
+            else:
+                sub.env[nm] = Rat.of(mk_atom('fn', f'loopvar#{self.loop_id}', (nm,)))
+        body_ok = True
+        lid = self.loop_id
         try:
-            self.block(s.body, sub)
+            outs = self.block(s.body, sub)
+            fall = [o for o in outs if o[0] in ('fall', 'continue')]
+            if len(fall) == 1:
+                sub = fall[0][1]
+            self.loop_bodies[lid] = {'node': s, 'pre': dict(pre_vals), 'post': dict(sub.env), 'test': self.cond(s.test, st)
+                                     if isinstance(s, ast.While) else None}
         except CannotAnalyse:
-            pass
+            body_ok = False
         uniq = []
         seen = set()
         for r in reads:
@@ -302,8 +353,29 @@ class Evaluator:
                 uniq.append(r)
         for nm in sorted(written_names):
             prev = st.env.get(nm)
-            args = [nm] + ([prev] if prev is not None else []) + uniq
+            args = [nm] + ([prev if isinstance(prev, Rat) else vkey(prev)] if prev is not None else []) + uniq
             st.env[nm] = Rat.of(mk_atom('fn', f'loop#{self.loop_id}', args))
+        # difference invariant for symbolic-length lists: len(l) - v is constant over an iteration (DESIGN 2.6)
+        if body_ok:
+            for nm in sorted(written_names):
+                pre = as_symlist(pre_vals.get(nm))
+                post = sub.env.get(nm)
+                if pre is None or not isinstance(post, SymList):
+                    continue
+                dlen = post.length - Rat.of(mk_atom('fn', f'looplen#{self.loop_id}', (nm,)))
+                done = False
+                for v in sorted(written_names):
+                    pv, nv = pre_vals.get(v), sub.env.get(v)
+                    if not isinstance(pv, Rat) or not isinstance(nv, Rat):
+                        continue
+                    dv = nv - Rat.of(mk_atom('fn', f'loopvar#{self.loop_id}', (v,)))
+                    if dv.eq(dlen) and not dlen.is_zero():
+                        st.env[nm] = SymList(pre.length - pv + st.env[v])
+                        self.invariants.append((self.loop_id, f'len({nm}) - {v} is invariant'))
+                        done = True
+                        break
+                if not done and dlen.is_zero():
+                    st.env[nm] = SymList(pre.length)
         for t in written_attrs:
             if isinstance(t, ast.Attribute):
                 p = path_of(self.ev(t.value, st))
@@ -395,9 +467,12 @@ class Evaluator:
             if n == 'isnot':
                 return f'not(is({ka},{kb}))'
             if n == 'gt':
+                self.cond_info[f'lt({kb},{ka})'] = ('lt', b, a)
                 return f'lt({kb},{ka})'
             if n == 'ge':
+                self.cond_info[f'le({kb},{ka})'] = ('le', b, a)
                 return f'le({kb},{ka})'
+            self.cond_info[f'{n}({ka},{kb})'] = (n, a, b)
             return f'{n}({ka},{kb})'
         if isinstance(t, ast.Call) and isinstance(t.func, ast.Name) and t.func.id == 'isinstance' and len(t.args) == 2:
             return f'isinstance({vkey(self.ev(t.args[0], st))},{ast.unparse(t.args[1])})'
@@ -459,6 +534,11 @@ class Evaluator:
                     pass
             if isinstance(base, DictV) and key in base.d:
                 return base.d[key]
+            if isinstance(base, SymList) and base.lo is not None:
+                if key == '0':
+                    return base.lo
+                if key == '-1':
+                    return base.hi
             p = path_of(base)
             if p is not None and f'{p}[{key}]' in st.store:
                 return st.store[f'{p}[{key}]']
@@ -547,6 +627,17 @@ class Evaluator:
     def binop(self, op, a, b):
         if isinstance(op, ast.Add) and isinstance(a, (list, tuple)) and isinstance(b, (list, tuple)):
             return list(a) + list(b)
+        if isinstance(op, ast.Add) and (isinstance(a, SymList) or isinstance(b, SymList)):
+            la, lb = as_symlist(a), as_symlist(b)
+            if la is not None and lb is not None:
+                return la.concat(lb)
+        if isinstance(op, ast.Mult) and isinstance(a, list) and isinstance(b, Rat):
+            return SymList(C(len(a)) * b, segs=[(vkey(a[0]), b)] if len(a) == 1 else None)
+        if isinstance(op, ast.Mult) and isinstance(b, list) and isinstance(a, Rat):
+            return SymList(C(len(b)) * a, segs=[(vkey(b[0]), a)] if len(b) == 1 else None)
+        if isinstance(a, SymList) or isinstance(b, SymList):
+            return Rat.of(mk_atom('fn', type(op).__name__.lower(), (a if isinstance(a, Rat) else vkey(a),
+                                                                   b if isinstance(b, Rat) else vkey(b))))
         if isinstance(a, (list, tuple, DictV, Const)) or isinstance(b, (list, tuple, DictV, Const)):
             if isinstance(a, Const) and isinstance(a.v, bool):
                 a = C(int(a.v))
@@ -776,6 +867,11 @@ class Evaluator:
             return lem_pow(self.num(a[0]), self.num(a[1]))
         if name == 'len' and len(a) == 1 and isinstance(a[0], (list, tuple)):
             return C(len(a[0]))
+        if name == 'len' and len(a) == 1 and isinstance(a[0], SymList):
+            return a[0].length
+        if name == 'range' and 1 <= len(a) <= 2 and all(isinstance(x, Rat) for x in a):
+            lo, hi = (C(0), a[0]) if len(a) == 1 else (a[0], a[1])
+            return SymList(hi - lo, lo, hi - C(1))
         if name == 'isinstance' or name == 'hasattr':
             return Rat.of(mk_atom('fn', 'cond', (self.cond(node, st),)))
         if name == 'dict' and not a:
